@@ -58,8 +58,10 @@ def server_roundtrip(loop, stream: bytes):
         async def handler(request):
             try:
                 await request.read()
-            except Exception:
-                raise
+            except web.RequestPayloadError:
+                # the documented way a handler learns that the body could not be read/decoded (the parser's
+                # HttpProcessingError is set on the payload stream); what to answer is the application's choice
+                return web.Response(status=400, text="bad payload")
             return web.Response(text="ok")
         app = web.Application()
         app.router.add_route("*", "/{tail:.*}", handler)
@@ -241,6 +243,7 @@ def run(ctx):
                     ctx.violation(case, f"response parser buffers an unterminated {name} without bound: {why or im['state']}")
 
     run_response_model(ctx, lims)
+    suite_server_late_errors(ctx)
 
     # server level: parse errors become a 400 and the connection is closed; nothing escapes
     from harness.common.loop import VLoop
@@ -422,7 +425,33 @@ def run_response_model(ctx, lims):
     ctx.notes.append(f"response-parser-model part: {_t.process_time() - cpu0:.1f}s CPU in this process")
 
 
+def suite_server_late_errors(ctx):
+    """Server level (web_protocol.py is one of C10's anchors): an error the parser reports AFTER the head was
+    accepted (bad chunk size, over-long chunk line, bad trailer, found only once the handler already runs) must end
+    the exchange as an error, never leave the handler waiting or the connection serving what follows.  Reuses the
+    in-process RequestHandler driver of harness/c05.py."""
+    from harness import c05
+    rng = ctx.rng
+    cases = [c for c in c05.special_fixed_cases(rng) if c["suite"] == "latebad"]
+    for _ in range(30 if ctx.quick else 600):
+        cases.append(c05.gen_latebad_case(rng))
+    for c in cases:
+        r = c05.run_impl(c, shadow=False)
+        ctx.case(("server-late", tuple(r["snaps"])), nontrivial=True)
+        ctx.count("server:latebad")
+        for vkind, text in r["bad"]:
+            cc = dict(c)
+            cc["vkind"] = vkind
+            cc["c10_server_case"] = True
+            ctx.violation(cc, f"server level, {vkind}: {text}")
+    ctx.count("suite:server-late-error-oracle", len(cases))
+
+
 def replay(ctx, case):
+    if case.get("c10_server_case"):
+        from harness import c05
+        r = c05.run_impl(case, shadow=False)
+        return {"bad": r["bad"], "violates": bool(r["bad"])}
     lim = tuple(case["lim"]) if "lim" in case else H.DEFAULT_LIM
     if case.get("kind") == "strict-reading":
         im = R.impl_run([bytes.fromhex(x) for x in case["segs"]], lim, True, True, True)
